@@ -78,11 +78,14 @@ def h_py(ctx, n):
 
 # ------------------------------------------------------------------ firmware side (llsym)
 import os, random
-import z3
-from .. import llsym, cjob
-from ..llsym import V, C, Ptr, Exec
+try:
+    import z3
+    from .. import llsym, cjob
+    from ..llsym import V, C, Ptr, Exec
+except ImportError:          # replay interpreter (no z3): only the Python-side harnesses are used there
+    z3 = None
 
-RFCH = os.path.join(cjob.FW, 'layer1/rfch.c')
+RFCH = os.path.join(cjob.FW, 'layer1/rfch.c') if z3 is not None else None
 PRELUDE = '#include <stdint.h>\n#include <layer1/sync.h>\n'
 FIELDS = ['sizeof(struct l1s_state)', 'offsetof(struct l1s_state, dedicated.type)', 'offsetof(struct l1s_state, dedicated.h)', 'offsetof(struct l1s_state, dedicated.h1.hsn)',
           'offsetof(struct l1s_state, dedicated.h1.maio)', 'offsetof(struct l1s_state, dedicated.h1.n)', 'offsetof(struct l1s_state, dedicated.h1.ma)',
